@@ -692,7 +692,9 @@ func (f *Frame) execNext(x *ssa.Next) {
 	ex.assume("(=> " + ok + " (>= (" + mc + ".card " + cont + ") 1))")
 	f.regs[x] = Val{Typ: x.Type(), Tup: []Val{{T: ok, Typ: types.Typ[types.Bool]}, kval, vv}}
 	// advance the ghost visited set
-	nv := ex.def(f.pfx+"vis", "(Array "+kv[0]+" Bool)", "(ite "+ok+" (store "+vis+" "+k+" true) "+vis+")")
+	// a declared constant (not a macro) so that it can occur in quantifier patterns
+	nv := ex.decl(f.pfx+"vis", "(Array "+kv[0]+" Bool)")
+	ex.assume("(= " + nv + " (ite " + ok + " (store " + vis + " " + k + " true) " + vis + "))")
 	f.rangeVisCur[rng] = nv
 }
 
